@@ -342,6 +342,12 @@ func (vlog *valueLog) open(heads map[uint32]kv.ValuePtr, replayFn kv.LogEntry) e
 }
 
 func (vlog *valueLog) read(vp *kv.ValuePtr) ([]byte, func(), error) {
+	return vlog.readOf(nil, vp)
+}
+
+// readOf reads the value vp points at on behalf of the LSM entry stored under key (an internal
+// key): the record there must have been written for that key.
+func (vlog *valueLog) readOf(key []byte, vp *kv.ValuePtr) ([]byte, func(), error) {
 	if vp == nil {
 		return nil, nil, errors.New("valueLog.read: nil value pointer")
 	}
@@ -349,7 +355,7 @@ func (vlog *valueLog) read(vp *kv.ValuePtr) ([]byte, func(), error) {
 	if err != nil {
 		return nil, nil, err
 	}
-	return mgr.ReadValue(vp, vlogpkg.ReadOptions{
+	return mgr.ReadValueOf(key, vp, vlogpkg.ReadOptions{
 		Mode:                vlogpkg.ReadModeAuto,
 		SmallValueThreshold: valueLogSmallCopyThreshold,
 	})
